@@ -18,7 +18,10 @@ ASSUMPTIONS = [
     "type references are at most 9 wrappers deep (type_depth=9 of the standard query)",
     "what introspection cannot carry is not compared after build_client_schema: resolvers, custom scalar functions, "
     "enum internal values, extensions, AST nodes",
-    "programmatic schemas list the specified directives",
+    "programmatic schemas list the specified directives; a third of the schemas define some of them themselves "
+    "(own @skip/@include/@deprecated/@specifiedBy/@oneOf with other descriptions, locations, repeatability) - in the "
+    "model directives are plain data looked up by name with their full definitions, nothing about specified "
+    "directives is implicit",
 ]
 
 
@@ -390,6 +393,21 @@ def run(tier):
                          GraphQLObjectType, GraphQLSchema, GraphQLString)
     from graphql.type import GraphQLDefaultInput
     probes = []
+    # schemas that bring their own definition of a specified directive (introspection must carry it like any other)
+    from graphql import DirectiveLocation, GraphQLBoolean, GraphQLDirective, GraphQLNonNull, specified_directives
+    for nm, sdl_p in (("skip-sdl", '"own skip"\ndirective @skip(if: Boolean!) on FIELD\ntype Query { a: Int }'),
+                      ("deprecated-legacy-sdl", 'directive @deprecated(reason: String = "No longer supported") on '
+                       'FIELD_DEFINITION | ENUM_VALUE\ntype Query { a: Int @deprecated }'),
+                      ("oneOf-specifiedBy-sdl", '"mine"\ndirective @oneOf on INPUT_OBJECT\ndirective @specifiedBy('
+                       '"the url"\nurl: String!) on SCALAR\nscalar S @specifiedBy(url: "u")\ninput I @oneOf { a: S }\n'
+                       'type Query { f(i: I): Int }')):
+        probes.append((f"override-probe:{nm}", build_schema(sdl_p)))
+    own_include = GraphQLDirective("include", [DirectiveLocation.FIELD, DirectiveLocation.QUERY], args={
+        "if": GraphQLArgument(GraphQLNonNull(GraphQLBoolean), description="cond")}, description="own include",
+        is_repeatable=True)
+    probes.append(("override-probe:include-programmatic", GraphQLSchema(
+        GraphQLObjectType("Query", {"a": GraphQLField(GraphQLInt)}),
+        directives=[own_include if d.name == "include" else d for d in specified_directives])))
     for ty, v in ([(GraphQLID, v) for v in ["123", "123\n", "-5\n", "007", "", 5]]
                   + [(GraphQLString, v) for v in ["", "123\n", '"', "\\", "a\u2028b"]]
                   + [(GraphQLFloat, v) for v in [0.0, 1e20, 5e-324, 3]] + [(GraphQLList(GraphQLID), ["1\n", 2])]):
@@ -408,7 +426,8 @@ def run(tier):
             rep0 = {"relation": "introspection", "mode": "default value probe", "schema": key0, "programmatic": True}
             i = 1000 + i  # option sampling below only needs some index
         else:
-            spec = G.gen_spec(rng, size=rng.randint(1, 3), adversarial=i % 4 != 0, directive_deprecation=i % 2 == 0)
+            spec = G.gen_spec(rng, size=rng.randint(1, 3), adversarial=i % 4 != 0, directive_deprecation=i % 2 == 0,
+                              override_specified=i % 3 == 0)
             sdl = G.spec_to_sdl(spec)
             mode = "sdl" if i % 2 == 0 else "prog"
             try:
